@@ -45,6 +45,10 @@ def applicable_faults(prog, kinds=None, extra=()):
     for mode in ('junk_keys', 'junk_pairs', 'junk_str'):
         out.append({'kind': 'extractor_odd', 'mode': mode})
     out.append({'kind': 'save_fails'})
+    if 'bad_params' in extra:
+        # misconfigured recording parameters: the sampling decision at the end of the operation raises
+        out.append({'kind': 'bad_params', 'mode': 'rate_raises'})
+        out.append({'kind': 'bad_params', 'mode': 'rate_str'})
     if kinds is not None:
         out = [f for f in out if f['kind'] in kinds]
     return out
@@ -61,7 +65,7 @@ def apply_faults(prog, faults):
     flags = {}
     for f in faults:
         k = f['kind']
-        if k in INSERTS or k in ('extractor', 'extractor_odd', 'save_fails'):
+        if k in INSERTS or k in ('extractor', 'extractor_odd', 'save_fails', 'bad_params'):
             continue
         s = p['steps'][f['at']]
         if k == 'unencodable_arg':
@@ -94,6 +98,9 @@ def apply_faults(prog, faults):
             p['extractor_meta'] = [['user_key', 'user value'], ['n', 3]]
         elif f['kind'] == 'save_fails':
             flags['save_fails'] = True
+        elif f['kind'] == 'bad_params':
+            p['params_fault'] = f['mode']
+            flags['bad_params'] = f['mode']
     return PS.assign_sids(p), flags
 
 
